@@ -76,6 +76,7 @@ package gonum
 //@ valid incX != 0 && n >= 0 && (incX < 0 || vec(x, n, incX))
 //@ panics iff !valid, before-writes
 //@ writes x[k*incX] for k in 0..n if incX > 0
+//@ reads nothing
 //@ ensures incX > 0 && alpha != 0 ==> forall(k, 0, n, same(x[k*incX], old(x[k*incX]) * alpha))
 //@ ensures incX > 0 && alpha == 0 ==> forall(k, 0, n, same(x[k*incX], float64(0)))
 
@@ -84,6 +85,7 @@ package gonum
 //@ valid incX != 0 && n >= 0 && (incX < 0 || vec(x, n, incX))
 //@ panics iff !valid, before-writes
 //@ writes x[k*incX] for k in 0..n if incX > 0
+//@ reads nothing
 
 // ---- Level 2 ------------------------------------------------------------------
 
@@ -106,6 +108,7 @@ package gonum
 //@       (m == 0 || n == 0 || (ge(a, m, n, lda) && vec(x, lenX, incX) && vec(y, lenY, incY)))
 //@ panics iff !valid, before-writes
 //@ writes y[start(lenY,incY)+k*incY] for k in 0..lenY
+//@ reads a[i*lda+j] for i in 0..m, j in 0..n ; x[start(lenX,incX)+k*incX] for k in 0..lenX
 
 //@ func Implementation.Dgbmv Implementation.Sgbmv props: C01(frame) C07(safety)
 //@ let lenX = ite(tA == blas.NoTrans, n, m)
@@ -114,6 +117,7 @@ package gonum
 //@       (m == 0 || n == 0 || (len(a) >= lda*(min(m, n+kL)-1)+kL+kU+1 && vec(x, lenX, incX) && vec(y, lenY, incY)))
 //@ panics iff !valid, before-writes
 //@ writes y[start(lenY,incY)+k*incY] for k in 0..lenY
+//@ reads a[i*lda+j] for i in 0..min(m, n+kL), j in 0..kL+kU+1 if 0 <= i+j-kL && i+j-kL < n ; x[start(lenX,incX)+k*incX] for k in 0..lenX
 
 //@ func Implementation.Dtrmv Implementation.Strmv Implementation.Dtrsv Implementation.Strsv props: C01(frame) C07(safety)
 //@ valid flagUL(ul) && flagT(tA) && flagD(d) && n >= 0 && lda >= max(1, n) && incX != 0 &&
